@@ -27,7 +27,7 @@ func init() {
 			c.Set("ref", string(ref))
 			c.Tag("reference-with-gaps")
 		}
-		if r.Chance(1, 25) {
+		if atScale(r, 25) {
 			// a target whose `updown list` row is longer than 64 KiB (the default bufio.Scanner token), or than a few KiB
 			// (any block a writer might batch rows in): every site differs; half of the time the second query is such a
 			// row as well, behind a short one
